@@ -666,6 +666,21 @@ def r18_11(ctx):
                 v = 10 ** 6 if a is None else pat.const_value(a)         # the default of the Fraction API is 10**6
                 if v is None and isinstance(a, ast.Name):
                     v = mconsts.get(a.id)
+                if v is None and isinstance(a, ast.Name) and a.id in fn.params:
+                    # the resolution is an argument: the coarsest one handed over by the callers within the closure
+                    idx = fn.params.index(a.id)
+                    vals = []
+                    for q2 in seen:
+                        g = ctx.model.funcs[q2]
+                        inf2 = ctx.typer.of(g)
+                        for c in ast.walk(g.node):
+                            if isinstance(c, ast.Call) and any(t.qname == fn.qname for t in inf2.targets(c, ("call",))):
+                                off = 1 if (fn.kind in ("method", "getter", "setter", "class") and isinstance(c.func, ast.Attribute)) else 0
+                                arg = c.args[idx - off] if 0 <= idx - off < len(c.args) else next(
+                                    (k.value for k in c.keywords if k.arg == a.id), None)
+                                vals.append(None if arg is None else pat.const_value(arg))
+                    if vals and all(x is not None for x in vals):
+                        v = min(vals)
                 found.append((n, "limit_denominator", v))
             elif name in ("round", "around", "round_") and (isinstance(f, ast.Name) or U(f.value) in ("np", "numpy")):
                 a = n.args[1] if len(n.args) > 1 else next((k.value for k in n.keywords if k.arg in ("ndigits", "decimals")), None)
@@ -724,11 +739,38 @@ def r18_12(ctx):
         """private helpers of the module called under `node` (a Newton step / a rounding step extracted into a function)"""
         inf = ctx.typer.of(fn)
         out_ = []
-        for c in ast.walk(node):
-            if isinstance(c, ast.Call):
-                for t in inf.targets(c, ("call",)):
-                    if t.mod == "curve" and t.name.startswith("_") and not t.name.endswith("__") and t.qname != fn.qname:
-                        out_.append(t)
+        # closures defined in the function, and locals bound to what a private helper returns (`limit = _bounded(10**9)`)
+        local_defs = {d.name: d for d in ast.walk(fn.node) if isinstance(d, (ast.FunctionDef, ast.Lambda)) and d is not fn.node
+                      and hasattr(d, "name")}
+        made_by = {}
+        for st in ast.walk(fn.node):
+            if isinstance(st, ast.Assign) and len(st.targets) == 1 and isinstance(st.targets[0], ast.Name) \
+                    and isinstance(st.value, ast.Call):
+                made_by[st.targets[0].id] = st.value
+            if isinstance(st, ast.Assign) and len(st.targets) == 1 and isinstance(st.targets[0], ast.Name) \
+                    and isinstance(st.value, ast.Lambda):
+                local_defs[st.targets[0].id] = st.value
+
+        class _Local:
+            def __init__(self, node_):
+                self.node, self.qname = node_, None
+        seen, todo = set(), [node]
+        while todo:
+            scope = todo.pop()
+            for c in ast.walk(scope):
+                if not isinstance(c, ast.Call):
+                    continue
+                calls = [c] + ([made_by[c.func.id]] if isinstance(c.func, ast.Name) and c.func.id in made_by else [])
+                for cc in calls:
+                    for t in inf.targets(cc, ("call",)):
+                        if t.mod == "curve" and t.name.startswith("_") and not t.name.endswith("__") and t.qname != fn.qname \
+                                and t.qname not in seen:
+                            seen.add(t.qname)
+                            out_.append(t)
+                if isinstance(c.func, ast.Name) and c.func.id in local_defs and id(local_defs[c.func.id]) not in seen:
+                    seen.add(id(local_defs[c.func.id]))
+                    out_.append(_Local(local_defs[c.func.id]))
+                    todo.append(local_defs[c.func.id])
         return out_
     n = 0
     for q, fn in sorted(ctx.model.funcs.items()):
